@@ -116,3 +116,38 @@ func runReceived(c *fw.Ctx, idx int, r *fw.Rand) {
 		c.NonTrivial(fmt.Sprintf("received|%s|%d|%d", backend, len(received), (idx/2)%len(dateHeaders)))
 	}
 }
+
+// Stream "cancel0" (added after seeded change C19-6): RetentionSleep 0 is a legal setting (it is
+// what the harness itself uses everywhere else), and a scan running with it must stop at a
+// shutdown request like any other.  DoScan decides between ctx.Done() and its (zero) sleep timer
+// in a select; when both are ready Go picks one at random, so a few further mailboxes may be
+// visited - each with probability 1/2 at most.  With 60+ mailboxes still ahead, more than 40
+// further visits (probability below 2^-40 on a correct tree) means the scan no longer looks at
+// the context at all.
+func runCancel0(c *fw.Ctx, idx int, r *fw.Rand) {
+	backend := backends[idx%2]
+	spec := genPop(r, 130, 180, 2, false)
+	nBoxes := 0
+	for _, b := range spec.Boxes {
+		if len(b.Msgs) > 0 {
+			nBoxes++
+		}
+	}
+	if nBoxes < 70 {
+		c.Count("cancel0_population_too_small", 1)
+		return
+	}
+	k := r.Range(1, nBoxes-60)
+	visits, _, _, ok := cancelRun(c, backend, &spec, "visit", k, nBoxes, 0)
+	if !ok {
+		return
+	}
+	c.Count("cancel0_scans", 1)
+	c.Max("cancel0_max_visits_after_cancel", int64(visits-k))
+	if extra := visits - k; extra > 40 {
+		c.Violation("C12:visit-after-cancel:sleep0", fmt.Sprintf("%s, RetentionSleep 0: context cancelled inside visit %d of %d, the scan visited %d further mailboxes (and removed what was expired in them)",
+			backend, k, nBoxes, extra), map[string]any{"backend": backend, "period": spec.Period.String(), "mailboxes": nBoxes, "cancelled_in_visit": k, "visits": visits})
+		return
+	}
+	c.NonTrivial(fmt.Sprintf("cancel0|%s|%s", backend, bucket(k)))
+}
